@@ -232,6 +232,49 @@ theorem nmSearch_none_only_when_outside (m : List Sym) (addr : Nat) (hs : Sorted
       exact hgr j t hj hta
     · rw [if_neg hc, h] at h'; cases h'
 
+/-- Inclusive-end rule: between two consecutive table entries every address of the half-open range
+`[start, next start)` — its last byte `next start − 1` included — is owned by the group that starts
+at `start`: the lookup succeeds and returns a symbol with exactly that start (function symbols;
+the address lies below the end of the last symbol, the lookup's documented upper guard). -/
+theorem nmSearch_owns_half_open_range (m : List Sym) (addr : Nat) (hs : SortedByAddr m)
+    (j : Nat) (s nxt : Sym) (hj : m[j]? = some s) (hn : m[j + 1]? = some nxt)
+    (h1 : s.address ≤ addr) (h2 : addr < nxt.address)
+    (hlast : ∀ l, m.getLast? = some l → addr < add64 l.address l.size)
+    (hfun : ∀ t ∈ m, t.address = s.address → t.isData = false) :
+    ∃ i t, addrInfo m addr = .ok (some i) ∧ m[i]? = some t ∧ t.address = s.address := by
+  have hsm : s ∈ m := List.mem_of_getElem? hj
+  -- any table symbol with start ≤ addr that dominates all such starts sits at s's start
+  have key : ∀ t ∈ m, t.address ≤ addr → (∀ u ∈ m, u.address ≤ addr → u.address ≤ t.address) →
+      t.address = s.address := by
+    intro t ht hta hgr
+    have hge : s.address ≤ t.address := hgr s hsm h1
+    obtain ⟨k, hk⟩ := List.getElem?_of_mem ht
+    by_cases hkj : k ≤ j
+    · have := sorted_idx m hs k j t s hkj hk hj
+      omega
+    · have := sorted_idx m hs (j + 1) k nxt t (by omega) hn hk
+      omega
+  rcases nmSearch_greatest_le m addr hs with hnone | ⟨i, t, hok, hi, hle, hgr⟩
+  · exfalso
+    rcases nmSearch_none_only_when_outside m addr hs hnone with h0 | ⟨f, hf, hlt⟩ | ⟨l, hl, hge⟩ | ⟨d, hd, hdata, hdle, _, hdgr⟩
+    · subst h0; simp at hj
+    · have hf0 : m[0]? = some f := by
+        cases m with
+        | nil => simp at hf
+        | cons a l => simpa using hf
+      have := sorted_idx m hs 0 j f s (Nat.zero_le _) hf0 hj
+      omega
+    · have := hlast l hl
+      omega
+    · have he := key d hd hdle hdgr
+      have := hfun d hd he
+      rw [this] at hdata
+      cases hdata
+  · exact ⟨i, t, hok, hi, key t (List.mem_of_getElem? hi) hle hgr⟩
+
+-- the last byte before the next symbol, for a zero-size function followed by a gap
+example : addrInfo [⟨0x1000, 0x20, false⟩, ⟨0x1040, 0, false⟩, ⟨0x2000, 8, false⟩] 0x1fff = .ok (some 1) := by decide
+
 -- a sorted table with duplicate starts, a zero-size function and a data symbol; lookups inside,
 -- between and beyond (indices into the table)
 example :
